@@ -94,7 +94,8 @@ pub struct DRec {
     pub sv_attempt: u32,
     pub to_slot: Option<usize>,
     pub to_epoch: u32,
-    pub accepted_in: Option<u32>, // server session number / client epoch in which the model saw it accepted
+    pub accepted_in: Option<u32>,
+    pub sealed_c2s: bool, // sealed under the client-to-server key (the server can open it) rather than the server-to-client key // server session number / client epoch in which the model saw it accepted
 }
 
 pub struct PayloadRec {
